@@ -44,6 +44,14 @@ CHECKS = {
              text="TLC proves RoundTrip, TamperRejected, Mirrored and Continuity on the two-direction session model with concrete keys. The real security interface (after a real handshake, and built from mirrored keys) seals message sequences of every length 0..n: each sealed message must equal Ntlm!Wrap in the state the trace reached (cipher stream position and sequence number carried over); messages sealed by the reference peer must unseal to the plaintext; every single-bit flip, truncation and extension must be rejected without plaintext.",
              note="Trusted: Java primitives, TLC. Altered messages are tried on an equivalent rebuilt interface (stated in the evidence).",
              ref="DESIGN.md section 6 C16"),
+ "C01": dict(cat="model_checking", tech="TLA+ spec CredSSP.tla (symbolic crypto terms) model-checked by TLC over the whole catalogue of last-round replies; concrete catalogue + every single-bit flip replayed over real TLS/NTLMv2 against Connector::connect; trace validation (Trace_Rdp.tla) decides 'proves' with Ntlm.tla / X509.tla and Java primitives",
+             text="TLC proves CredsOnlyAfterProof, FailsUnlessProved, SilentAfterFail, OrderOK on the symbolic model. Every catalogue member (honest, padded, 9 numeric offsets, other certificates, wrong key, wrong direction, reflection, bad checksum/sequence/version, empty, absent, wrong field, BER long form, extensions) x 3 certificates x 8 credential modes, every single-bit flip of the honest TSRequest (2480) and truncations are produced by the independent NTLM server over real TLS. The validator derives the session keys from the wire (Ntlm!Verify with the account's NT hash), checks the client bound its pubKeyAuth to the certificate the TLS peer presented, decides whether the server's reply proves the key (strict DER, Ntlm!Unwrap, numeric comparison with SubjectPublicKey+1) and accepts only: proof => sealed well-formed credentials follow; no proof => connect fails and the client writes nothing more.",
+             note="Trusted: Java primitives, OpenSSL, TLC. A non-DER envelope around an honest proof may be accepted or refused (property silent).",
+             ref="DESIGN.md section 6 C01"),
+ "C17": dict(cat="model_checking", tech="TLA+ specs Rdp.tla (ModeTable, NoCredBeforeTls, OnlyNegoOnRaw) and CredSSP.tla (ModeTable) model-checked by TLC; complete TLC-generated product of the five mode switches x credential classes run over TLS/CredSSP; trace validation with TSCredentials unsealed by Ntlm.tla and a substring search for the password written in TLA+",
+             text="All 32 combinations of {NLA, restricted admin, blank credentials, auto logon, password vs hash} x domain/user classes x server selection are executed end to end. The validator checks on the decoded bytes: negotiation request flag = restricted admin; Client Info domain/user/password empty iff restricted admin, auto-logon flag iff requested; TSCredentials (unsealed with keys derived from the wire) empty iff restricted admin or blank credentials, password field empty in hash mode; and every byte the client wrote on the raw transport, in NTLM tokens, in every other TLS message and in the non-password fields of TSCredentials is searched for the UTF-8 and UTF-16LE password.",
+             note="Trusted: Java primitives, TLC, OpenSSL. Distinctive passwords make a substring match meaningful.",
+             ref="DESIGN.md section 6 C17"),
 }
 
 NOT_YET = {
